@@ -227,12 +227,19 @@ func runC03(r *mon.Run, replay string) {
 			runC03Kill(r, st)
 			return
 		}
+		if st >= 38000 {
+			runC03Stop(r, st)
+			return
+		}
 		runC03History(r, st)
 		return
 	}
 	parallel(r.Pick(150, 2000), func(i int) { runC03History(r, uint64(30000+i)) })
+	// stop before a commit, database kept in memory
+	parallel(r.Pick(60, 800), func(i int) { runC03Stop(r, uint64(38000+i)) })
 	// real-process variant: SIGKILL of a child running on a Bolt file
 	parallel(r.Pick(12, 300), func(i int) { runC03Kill(r, uint64(39000+i)) })
+	r.Floor("stops_before_commit", int64(r.Pick(100, 1500)))
 	r.Floor("kill_runs_audited", int64(r.Pick(8, 200)))
 	r.Floor("snapshots_reopened", 2000)
 	r.Floor("snapshots_inside_reorg", 500)
